@@ -229,6 +229,16 @@ class Check:
                 self.oblige("axioms " + t, not extra, "extra axioms: " + ", ".join(extra))
 
     def step_cargo(self):
+        # cargo's fingerprints are mtime based: when the `repo` symlink is pointed at another tree whose
+        # files are OLDER than the last build (e.g. back from a mutated copy to /repo) nothing would be
+        # rebuilt.  Remember which tree the last build used and force a rebuild of ruzstd when it changes.
+        stamp = os.path.join(BUILD, ".repo_path")
+        last = open(stamp).read().strip() if os.path.exists(stamp) else None
+        if last != REPO:
+            sh(["cargo", "clean", "--release", "--offline", "-p", "ruzstd"], cwd=HARNESS, timeout=600)
+            os.makedirs(BUILD, exist_ok=True)
+            with open(stamp, "w") as f:
+                f.write(REPO)
         rc, out, dt = sh(["cargo", "build", "--release", "--offline"], cwd=HARNESS, timeout=3600)
         self.harness_ok = rc == 0
         self.oblige("harness builds against /repo working tree (hooks on)", rc == 0, out[-1500:] if rc else "")
@@ -274,6 +284,17 @@ class Check:
                     self.oblige(f"model driver runs engine {name}", False, p.stderr.decode(errors="replace")[-400:])
                 else:
                     rep["disagreements"], rep["compared"] = diff_streams(cases_p, impl_p, model_p)
+                    # conditional oracle failures: they count only when the model disagrees on their line
+                    conds = {c["line"] + 1: c for c in meta.get("conditional_failures", [])}
+                    if conds:
+                        keep = []
+                        for d in rep["disagreements"]:
+                            c = conds.get(d["line"])
+                            if c:
+                                meta.setdefault("oracle_failures", []).append({k: c[k] for k in ("property", "signature", "what", "replay")})
+                            else:
+                                keep.append(d)
+                        rep["disagreements"] = keep
         return rep
 
     def step_engines(self):
